@@ -22,7 +22,10 @@ Record oentry := { oe_cls : Z; oe_chans : list ChannelIdentifier; oe_s : Z; oe_e
                    oe_cmd : Z;                  (* index of the top-level command whose add() returned this object, or -1 *)
                    oe_refpos : Z;               (* listing position of the reported referent, or -1 (none / a sub-circuit) *)
                    oe_multi : list (Z * Z) }.   (* (start, end) of every member of a reported multi-link *)
-Record obs := { o_ops : list oentry; o_duration : Z }.
+(* one reported sub-circuit: start, duration, number of contained leaf operations, earliest start / latest end over them,
+   start of its first (depth-1) operations *)
+Record ocomp := { oc_s : Z; oc_d : Z; oc_n : Z; oc_lo : Z; oc_hi : Z; oc_first : Z }.
+Record obs := { o_ops : list oentry; o_duration : Z; o_comps : list ocomp }.
 
 Definition chans_eqb := list_eqb chid_exact_eqb.
 Definition rel_eqb (a b : option (RelationType * Z * Z)) : bool :=
@@ -34,7 +37,10 @@ Definition rel_eqb (a b : option (RelationType * Z * Z)) : bool :=
 Definition oentry_eqb (a b : oentry) : bool :=
   (oe_cls a =? oe_cls b) && chans_eqb (oe_chans a) (oe_chans b) && (oe_s a =? oe_s b) && (oe_e a =? oe_e b)
   && (oe_d a =? oe_d b) && (oe_tag a =? oe_tag b).
-Definition obs_eqb (a b : obs) : bool := list_eqb oentry_eqb (o_ops a) (o_ops b) && (o_duration a =? o_duration b).
+Definition ocomp_eqb (a b : ocomp) : bool := (oc_s a =? oc_s b) && (oc_d a =? oc_d b).
+Definition obs_eqb (a b : obs) : bool :=
+  list_eqb oentry_eqb (o_ops a) (o_ops b) && (o_duration a =? o_duration b)
+  && (match o_comps b with [] => true | _ => list_eqb ocomp_eqb (o_comps a) (o_comps b) end).
 
 Definition entry_to_o (env : denv) (e : entry) : oentry :=
   {| oe_cls := l_cls (e_leaf e); oe_chans := l_chans (e_leaf e); oe_s := e_start e; oe_e := e_end e;
@@ -42,8 +48,25 @@ Definition entry_to_o (env : denv) (e : entry) : oentry :=
      oe_tag := match l_acq (e_leaf e) with Some (_, t) => t | None => -1 end;
      oe_cmd := -1; oe_refpos := -1; oe_multi := [] |}.
 
+(* get_sub_composite_operations (pre-order over the layered listing) with reported start and duration *)
+Fixpoint comps_op (env : denv) (o : op) : ctx -> list ocomp :=
+  match o with
+  | OLeaf _ => fun _ => []
+  | OComp _ ns => fun c =>
+      let fs := (fix go (l : list node) : list (ctx -> list ocomp) :=
+                   match l with [] => [] | Node _ _ o' :: t => comps_op env o' :: go t end) ns in
+      let tm := node_times env c ns in
+      flat_map (fun i => match nth_error ns i with
+                         | Some (Node _ l (OComp r sub)) =>
+                             {| oc_s := fst (nth i tm (0, 0)); oc_d := dur_of env (OComp r sub); oc_n := 0; oc_lo := 0; oc_hi := 0; oc_first := 0 |}
+                             :: nth i fs (fun _ => []) (sub_ctx c tm l)
+                         | _ => []
+                         end) (bfs (parents ns))
+  end.
+
 Definition model_obs (env : denv) (ns : list node) : obs :=
-  {| o_ops := map (entry_to_o env) (listing env ns); o_duration := comp_duration env ns |}.
+  {| o_ops := map (entry_to_o env) (listing env ns); o_duration := comp_duration env ns;
+     o_comps := comps_op env (OComp 1 ns) None |}.
 
 Record case := {
   c_prog : list cmd;
